@@ -90,6 +90,10 @@ def kill_sweep(sess, op):
                     sess.stats["kill:sleep"] += 1
                     sess.stats["fault_fired:kill_inactive_in_phase"] += 1
                     _observe(sess, dict(kw, phase=ph), "sleep")
+                    if (len(names) + len(n)) % 5 == 0:
+                        # the same kill seen by an all-phase solve with a small sweep
+                        # budget: it raises RuntimeError or every phase is settled
+                        _observe(sess, {"maxiter": 1 + (len(n) % 4)}, "sleep-small-maxiter")
                     if nontriv:
                         sess.nontrivial.add(("kill", "sleep:" + k, sess.model.depth(n), kinds_below))
                 _edit(sess, {"op": "set_comp_phases", "name": n, "conf": copy.deepcopy(conf) if conf else []})
@@ -139,6 +143,20 @@ def mux_patterns(sess, op):
                 continue
             k = m.kind(inp)
             spec, group, rail, conf = copy.deepcopy(m.comps[inp]), m.groups[inp], m.rails[inp], copy.deepcopy(m.phase_conf[inp])
+            if k == "LinReg" and (inputs.index(inp) + sum(pattern)) % 2 == 1:
+                # dead by drop-out: powered and enabled, but its output is 0 V
+                from .gen import model_vnom
+
+                vin = abs(model_vnom(m, m.parents[inp][0]))
+                if vin > 0:
+                    d = copy.deepcopy(spec)
+                    sign = 1 if spec["p"]["vo"] >= 0 else -1
+                    d["p"]["vo"] = sign * round(vin * 3.0 + 1.0, 4)
+                    d["p"]["vdrop"] = round(vin * 1.5 + 0.1, 4)
+                    if _edit(sess, {"op": "change_comp", "name": inp, "comp": d, "group": group, "rail": rail}):
+                        undo.append(("comp", inp, spec, group, rail, conf))
+                        sess.stats["fault_fired:mux_input_dropout"] += 1
+                        continue
             if k in LIST_PHASE_KINDS and k != "Source":
                 if _edit(sess, {"op": "set_comp_phases", "name": inp, "conf": others}):
                     undo.append(("conf", inp, conf))
